@@ -5,14 +5,31 @@ import (
 	"pgregory.net/rapid"
 )
 
-// Fragments draws 0..maxN pieces from an alphabet of meaningful fragments, mixed with raw bytes with probability 1/10.
+// RunLengths are the repetition counts of the "run" production: around the sizes of fixed scratch arrays and block sizes.
+var RunLengths = []int{7, 8, 9, 15, 16, 17, 31, 32, 33, 34, 63, 64, 65, 127, 128, 129, 255, 256, 257, 1023, 1024, 1025}
+
+var runUnits = []string{"a", "x", "A", "Z", "0", "9", "f", "-", "_", " ", "é"}
+
+// Fragments draws 0..maxN pieces from an alphabet of meaningful fragments, mixed with raw bytes with probability 1/10 and,
+// with probability 1/25, a run: one short unit (a letter, digit, dash, space or a fragment of at most two bytes) repeated
+// 7..1025 times (lengths around powers of two: a name, number or whitespace run just below, at and above the size of a
+// fixed scratch buffer). The result stays below 6 KiB.
 func Fragments(t *rapid.T, label string, alphabet []string, maxN int) []byte {
 	n := rapid.IntRange(0, maxN).Draw(t, label+"#")
 	var b []byte
 	for i := 0; i < n; i++ {
-		if rapid.IntRange(0, 9).Draw(t, label+"?") == 0 {
+		switch k := rapid.IntRange(0, 49).Draw(t, label+"?"); {
+		case k < 5:
 			b = append(b, rapid.Byte().Draw(t, label+"b"))
-		} else {
+		case k < 7 && len(b) < 4096:
+			unit := rapid.SampledFrom(runUnits).Draw(t, label+"unit")
+			if f := rapid.SampledFrom(alphabet).Draw(t, label+"unitfrag"); len(f) > 0 && len(f) <= 2 && rapid.Bool().Draw(t, label+"fragunit") {
+				unit = f
+			}
+			for r := rapid.SampledFrom(RunLengths).Draw(t, label+"run"); r > 0 && len(b) < 6000; r-- {
+				b = append(b, unit...)
+			}
+		default:
 			b = append(b, rapid.SampledFrom(alphabet).Draw(t, label)...)
 		}
 	}
